@@ -1,23 +1,95 @@
-HOOK_COMMITS = []
+HOOK_COMMITS = ["7af2c1d"]
 
-WIP = "not claimed yet: the check for this property is still under construction in this round"
 NOT_APPLICABLE = {
-    "C05": "pure function of the key bytes: no schedule, clock, fault, I/O or second party can influence it, so deterministic simulation has nothing to explore (its consequence, agreeing with the cluster on the owner, is exercised by C04's oracle through an independent key-slot implementation)",
+    "C05": "pure function of the key bytes: no schedule, clock, fault, I/O or second party can influence it, so deterministic simulation has nothing to explore "
+           "(dressing key sampling in simulator vocabulary would be input generation, not simulation). Its observable consequence - proxy and cluster agree on the "
+           "owner of a key - is exercised by C04, whose oracle computes the owner with an independent CRC16/hash-tag implementation over adversarial brace "
+           "arrangements; that is how the hash-tag defect (fixed in 89b65b1) was found.",
 }
-for _p in ["C%02d" % i for i in range(1, 21)]:
-    NOT_APPLICABLE.setdefault(_p, WIP)
 
-_sim_note = ("trusted: fidelity of the simulated kernel (sim/kernel.go) to Linux non-blocking socket/epoll/eventfd semantics and of the redis "
-             "cluster model (sim/cluster.go) to redis-server for the behaviours used; go1.26.8 testing/synctest plus three small runtime overlay patches; "
-             "GOMAXPROCS=1 build equals the shipped build for this property. Sampling, not enumeration, unless stated.")
+_sim_note = ("trusted: fidelity of the simulated kernel (sim/kernel.go) to Linux non-blocking socket/epoll/eventfd semantics and of the redis cluster model "
+             "(sim/cluster.go) to redis-server for the behaviours used; go1.26.8 testing/synctest plus small runtime/net overlay patches (map seed, 50 ns clock tick "
+             "for the event-loop goroutine, dial hooks); GOMAXPROCS=1 build behaves like the shipped build for this property. The space is sampled by seeded "
+             "search unless an enumeration is named; a clean batch is evidence, not proof.")
+
+_T = "deterministic whole-proxy simulation with seeded scheduler and fault injection; "
+
 TEXTS = {
-    "C01": dict(design_ref="6/C01", technique="deterministic simulation: seeded schedules over real proxy code, token-relational reply-order oracle",
-                level_text="seeded search over pipelines x backend reply orders x segmentation with the real event loop; every client stream must parse into exactly one reply per request, position by position equal to what the backends answered for that request (or the protocol constant for locally answered ones); exploration level because the space is sampled",
+    "C01": dict(design_ref="6/C01", technique=_T + "token-relational reply-order oracle over recorded client/backend histories",
+                level_text="seeded search over pipelines (forwarded, split, locally answered, rejected, QUIT) x per-backend reply release orders x segmentation with the real event loop; every "
+                           "client stream must parse into exactly one reply per request, position by position equal to what the backends answered for that request (or the protocol constant "
+                           "for locally answered ones), nothing after QUIT's +OK; exploration level because the space is sampled",
                 level_note=_sim_note),
-    "C09": dict(design_ref="6/C09", technique="deterministic simulation: fair fault-free schedule, bounded-liveness oracle in poll rounds and fake time",
-                level_text="open-loop clients against delayed backends under a strictly fair schedule; bounded liveness: reply i reaches the client within 3 rounds / 1 fake second of the proxy having been handed the replies of requests 0..i",
-                level_note=_sim_note + " Liveness bound is evaluated only in rounds where the simulator itself delays nothing."),
-    "C16": dict(design_ref="6/C16", technique="deterministic simulation with fault injection: stalled/late backends on the fake clock, position-exact reply oracle",
-                level_text="fault enumeration over which fragments stall (forever / beyond the timeout) x pipeline position x request kind, plus seeded random cases; each request must get exactly its backend reply or, when the reply was not handed to the proxy before client-send-time+T, the timeout error, in its pipeline position; later requests must still be served",
+    "C02": dict(design_ref="6/C02", technique=_T + "byte-exact comparison of client bytes with backend-side bytes (both directions)",
+                level_text="every documented single-key command with exotic argument bytes and all RESP2 reply shapes/sizes under segmentation, short reads/writes, EAGAIN, tiny send buffers, "
+                           "slow readers and small read buffers; backend bytes must equal the client's with only the command name lower-cased, client bytes must equal the backend's reply",
+                level_note=_sim_note + " Message sizes are capped when the drawn socket/read buffers are tiny so that transfers finish inside the settle budget."),
+    "C03": dict(design_ref="6/C03", technique=_T + "token ownership oracle under client disconnects, unroutable slots, timeouts and backend kills",
+                level_text="concurrent client sessions with mid-flight disconnects, fd/object reuse, unowned slot ranges, refusing nodes, timeouts and killed backend connections; every delivered reply "
+                           "must be the token-matched backend reply (or merge) for that connection's own request at that position, or a proxy-generated error; missing replies are not judged here",
+                level_note=_sim_note),
+    "C04": dict(design_ref="6/C04", technique=_T + "routing oracle at the backends with an independent key-slot function and Redis' command classification",
+                level_text="random topologies and slot layouts, every documented command, keys over many slots incl. adversarial hash-tag brace arrangements, password and replica-read settings; "
+                           "each command must arrive in the replica set owning the reference slot (writes, scans, scripts at the master), and every backend connection must start with AUTH/READONLY as required",
+                level_note=_sim_note + " Read/write classification is Redis' command table held in the harness, not rcproxy's constant order."),
+    "C06": dict(design_ref="6/C06", technique=_T + "wire-level fragment oracle at the backends (per-slot subsequence equality)",
+                level_text="MGET/DEL/MSET with up to 300 (thorough 5000) keys, duplicates, hash tags, empty/binary keys, observed on the wire at the backends under partial writes and map-order variation: "
+                           "exactly one well-formed same-kind fragment per distinct slot carrying that slot's keys (with values) in request order; the input dimension is sampled, so the level is modest",
+                level_note=_sim_note),
+    "C07": dict(design_ref="6/C07", technique=_T + "reference merge of the fragment replies actually returned in the run, under seeded arrival orders",
+                level_text="split requests over pre-populated stores with fragment replies released in seeded orders and byte-level interleavings; the client's reply must equal the harness's own "
+                           "merge (MGET per-key elements in request order, DEL sum, MSET conjunction) of what each node returned",
+                level_note=_sim_note + " Exhaustive k! arrival-order enumeration is not built; orders are sampled (98% of quick runs contain an out-of-order arrival)."),
+    "C08": dict(design_ref="6/C08", technique=_T + "planned-request oracle under seeded and enumerated segmentations",
+                level_text="well-formed pipelines cut into random chunks, 1-byte chunks and (thorough) every single cut position / cut pairs of fixed pipelines, read buffers from 16 B to 64 KiB; exactly the "
+                           "planned requests must be recognised once each, in order, unaltered; the connection is never closed or answered early",
+                level_note=_sim_note),
+    "C09": dict(design_ref="6/C09", technique=_T + "fair fault-free schedule with a bounded-liveness oracle in poll rounds and fake time",
+                level_text="open-loop clients against delayed backends under a strictly fair schedule; reply i must reach the client within 3 rounds / 1 fake second of the proxy having been handed "
+                           "the backend replies of requests 0..i, however many later requests are outstanding",
+                level_note=_sim_note + " The bound is evaluated only in rounds where the simulator itself delays nothing (no short I/O, room in the client socket)."),
+    "C10": dict(design_ref="6/C10", technique=_T + "per (client,node) arrival-order oracle and SET;GET consequence check",
+                level_text="one connection per node, deep pipelines from several clients, interleavings of client reads, write signals (thorough: more than 256 queued tasks per poll), backend replies and "
+                           "blocked/short backend writes; request indices must arrive non-decreasing per (client,node) and a pipelined GET served by the master must observe its SET",
+                level_note=_sim_note),
+    "C11": dict(design_ref="6/C11", technique=_T + "fault enumeration over erroring fragment subsets and error kinds",
+                level_text="the model answers chosen fragments with errors from a 14-entry catalogue; thorough enumerates request kind x fragment count <= 4 x erroring subset x error kind; a single-key "
+                           "request must get the error verbatim, a split request some error reply and never a success value; later requests and other clients stay served; crash/live-lock detection by the runner",
+                level_note=_sim_note),
+    "C12": dict(design_ref="6/C12", technique=_T + "grammar-mutated hostile byte streams with witness clients and a redis-server reference parser at the backends",
+                level_text="offenders send mutated RESP in seeded segmentation while witnesses run round trips through the same backend connections; proxy must stay alive and not spin, witnesses must be "
+                           "served correctly, no backend may receive what redis-server's parser rejects, and a definite protocol error must end in an error reply or a close",
+                level_note=_sim_note + " 'Definite protocol error' is decided by a re-implementation of redis-server's processMultibulkBuffer/processInlineBuffer."),
+    "C13": dict(design_ref="6/C13", technique=_T + "stale-view topology with MOVED/ASK answered by the model; redirect-count and final-owner oracle",
+                level_text="slots handed to another known master (MOVED) and slots in migration with some keys moved (ASK; the importing node insists on ASKING) hit by single and split requests at seeded "
+                           "pipeline positions while nodes keep reporting the old view; the client must get exactly the final owner's reply in position and no fragment may be redirected more than 16 times",
+                level_note=_sim_note),
+    "C14": dict(design_ref="6/C14", technique=_T + "topology-history simulation with unusable probe answers; black-box routing oracle anchored on consumed probe replies",
+                level_text="histories of cluster descriptions from seeded mutations with per-node lag and interleaved unusable probe answers; 3 fake seconds after the proxy consumed the first probe reply "
+                           "carrying the final description, writes must reach the claiming master, reads only it or its usable replicas, and unclaimed slots must be refused",
+                level_note=_sim_note + " Yield-point interleavings of the refresh goroutine (hook points exist in /repo) are not driven yet; helper goroutines run to quiescence between driver actions."),
+    "C15": dict(design_ref="6/C15", technique=_T + "fault enumeration over connection-loss phase x pipeline position x request kind; bounded liveness in a fair settle phase",
+                level_text="backend connection FIN/RST before the fragment is read / after it is read / after k reply bytes, node down and up, redirect to an unknown node; after the last fault (fair settle "
+                           "phase, timeout+10 fake seconds) every request has a reply or its connection was closed by the proxy, data replies are still right, and a later client is served over a new connection",
+                level_note=_sim_note),
+    "C16": dict(design_ref="6/C16", technique=_T + "stalled/late backends on the fake clock; position-exact reply oracle with deadline-relative lateness rule",
+                level_text="fault enumeration over which fragments stall (forever / beyond the timeout) x pipeline position x request kind plus seeded random cases; each request must get exactly its "
+                           "backend reply or, when the reply was not handed to the proxy before client-send-time+T, the timeout error, in its pipeline position; later requests must still be served",
                 level_note=_sim_note + " A reply released before (client send time + T) is in time for sure because the proxy's deadline starts at its later write."),
+    "C17": dict(design_ref="6/C17", technique=_T + "served-iff oracle from docs/command.md, Redis' arity table and own-size limit",
+                level_text="every documented command name plus unknown names in mixed case, argument counts 0..arity+2, request and reply sizes at L-1, L, L+1 for several limits, alone and inside pipelines "
+                           "in one or many segments; a request is served iff supported, arity ok and own size <= L, otherwise the corresponding error and nothing reaches a backend",
+                level_note=_sim_note + " Argument counts between 'has a key' and Redis' minimum for variadic commands are unspecified by the statement and accepted either way."),
+    "C18": dict(design_ref="6/C18", technique=_T + "whitelist edit histories on real files with real inotify and a sentinel barrier; arbitrary source addresses from the simulated kernel",
+                level_text="edit histories (add, remove, replace, enable, disable) applied in place, torn in two writes, via invalid YAML, delete+recreate or rename-over; after every edit probes from listed, "
+                           "unlisted, formerly listed and IPv6 addresses must be admitted iff the whitelist is disabled or the address is in the current file; rejected = closed with zero bytes, nothing forwarded",
+                level_note=_sim_note + " File system and inotify are real; determinism comes from the barrier (hook verifhook.Event), not from timing."),
+    "C19": dict(design_ref="6/C19", technique="seeded state-machine simulation of the buffers against a byte-queue model (pgregory.net/rapid) + whole-proxy simulation with tiny socket buffers",
+                level_text="component level: rapid state machines over ring, linked-list and elastic buffers against a plain []byte queue after every operation, with pool sharing; system level: the C02 "
+                           "workload with slow readers, 8-512 byte send buffers and 16-257 byte read buffers so that partial writes, spill and leftovers happen on the real paths",
+                level_note=_sim_note + " ReadFrom/WriteTo (gnet API remnants never called by rcproxy, not named in the statement) are explored only with COMP_STREAMS=1 and not held against C19."),
+    "C20": dict(design_ref="6/C20", technique=_T + "long read histories; per-replica service-count oracle",
+                level_text="3-4 masters with 2-4 healthy replicas, about 300 reads per master mixed with writes; every replica healthy for the whole run must serve at least one of >= 200 reads of its "
+                           "master (miss probability < 1e-35 under uniform choice; math/rand is seeded per run), writes only at masters",
+                level_note=_sim_note),
 }
